@@ -448,6 +448,10 @@ func (p *Program) staticLoc(ms *modSet, env map[string]types.Type, loc string, f
 	}
 	for fi := 0; fi < stru.NumFields(); fi++ {
 		if stru.Field(fi).Name() == loc[i+1:] {
+			if isStruct(stru.Field(fi).Type()) {
+				ms.addStructFields(stru.Field(fi).Type())
+				return true
+			}
 			ms.add(fieldArrays(st, fi))
 			return true
 		}
